@@ -74,7 +74,7 @@ let terms_view (w : world) : string =
 let digest (w : world) : string =
   let el = w.w_el in let im = el.el_im in
   let f = el_first el w.w_lr and l = el_last el w.w_lr in
-  Printf.sprintf "f=%s l=%s c=%s p=%s s=%s m=%s a=%s:%s ss=%s im=%s lr=%s:%s:%s T=%s save=%s apply=%s has=%d all=%s q=%d"
+  Printf.sprintf "f=%s l=%s c=%s p=%s s=%s m=%s a=%s:%s ss=%s im=%s lr=%s:%s:%s T=%s save=%s apply=%s has=%d all=%s q=%d rl=%s"
     (sn f) (sn l) (sn el.el_committed) (sn el.el_processed) (sn im.im_saved) (sn im.im_marker)
     (sn im.im_aidx) (sn im.im_aterm)
     (match im.im_snap with Some (i, t) -> sn i ^ ":" ^ sn t | None -> "-")
@@ -86,6 +86,7 @@ let digest (w : world) : string =
     (if el_has_to_apply el w.w_lr then 1 else 0)
     (show_res show_ents (el_get_entries el w.w_lr w.w_st f (nadd l one) max64))
     (List.length w.w_queue)
+    (match im.im_rl with Some n -> sn n | None -> "-")
 
 let show_ud (u : update) : string =
   let c = u.ud_uc in
@@ -129,10 +130,16 @@ let spec_diff (w : world) (sp : spec) : string option =
 (* ---------- main ---------- *)
 let run_case (id : string) (hdr : string list) (ops : string list) =
   match hdr with
-  | ["I"; mi; mt; c; lim; wf; ents] ->
+  | "I" :: mi :: mt :: c :: lim :: wf :: ents :: opts ->
     let mi = n_of_string mi and mt = n_of_string mt and c = n_of_string c and lim = n_of_string lim in
     let ents = parse_ents ents in
-    let w = ref (w_init mi mt ents c lim) in
+    (* rl=N: a real rate limiter with MaxInMemLogSize N sits under inMemory; it accounts
+       only if Enabled(): N > 0 and N <> MaxUint64. ss= / st= (slice capacity thresholds, the
+       store under the LogReader) have no observable effect: the model ignores them *)
+    let rlon = List.exists (fun o ->
+      String.length o > 3 && String.sub o 0 3 = "rl=" &&
+      (let v = String.sub o 3 (String.length o - 3) in v <> "0" && v <> "18446744073709551615")) opts in
+    let w = ref (w_init_rl rlon mi mt ents c lim) in
     let sp = ref (sp_init mi mt ents c) in
     let spec_on = ref (wf = "1") in
     Printf.printf "%s init %s\n" id (digest !w);
